@@ -108,6 +108,88 @@ def replay_chunk(ctx, texts):
     return out
 
 
+TRACE_REGIMES = [(F(1, 8), F(1, 16)), (F(1, 16), F(1, 8)), (F(0), F(0)), (F(3, 16), F(0)), (F(-1, 16), F(1, 16))]
+YEAR_S = 31536000
+
+
+def record_traces(n, length, seed):
+    """random executions of a real cash-only Broker at whole-year instants under dyadic rates: the amounts are rationals"""
+    import random
+    from . import impl
+    from .broker_trace import rat
+    rnd = random.Random(seed)
+    traces = []
+    for k in range(n):
+        r, m = TRACE_REGIMES[k % len(TRACE_REGIMES)]
+        dep = rnd.choice([1000, -1000, 16, -16])
+        pos = max(F(1), 1 + r - m)
+        neg = 1 + r + m
+        ex = impl.Exchange()
+        rate = impl.Rate("VERIF-RATE")
+        cash = impl.Cash()
+        ex.process_EventNBBO(impl.EventNBBO(BASE, cash, 1.0, 1.0))
+        ex.process_EventNBBO(impl.EventNBBO(BASE, rate, float(r), float(r)))
+        br = impl.Broker(ex, cash, deposit=float(dep), fees=impl.BrokerFees(markup=float(m), interest_rate=rate))
+        y, acc, ops = rnd.choice([0, 1]), None, []
+        for _ in range(length):
+            kind = "accrue" if rnd.random() < 0.6 else "query"
+            if acc is not None and acc >= 1 and rnd.random() < 0.15:
+                t_y = acc - 1                                    # a time earlier than the last accrual
+            else:
+                y = min(4, y + rnd.choice([0, 0, 1, 1, 2]))
+                t_y = y
+            t = BASE + timedelta(seconds=YEAR_S * t_y)
+            o, val = impl.classify(lambda: br.accrued_interest(t, kind == "accrue"))
+            ops.append({"op": kind, "y": t_y, "out": "ok" if o == "ok" else "error",
+                        "amt": rat(val) if o == "ok" else [0, 0], "cash": rat(br.holdings_quantity[cash])})
+            if o == "ok":
+                acc = t_y if (kind == "accrue" or acc is None) else acc
+        traces.append({"pos": [pos.numerator, pos.denominator], "neg": [neg.numerator, neg.denominator], "dep": [dep, 1], "ops": ops})
+    return traces
+
+
+def validate_traces(rep, tier, seed):
+    """code -> spec: TLC validates the recorded executions against InterestTrace.tla (exact rationals)"""
+    import json
+    import os
+    from . import tlc
+    n, length = (300, 7) if tier == "quick" else (3000, 9)
+    traces = record_traces(n, length, seed)
+    wd = tlc.new_workdir(rep.prop + "-itrace")
+    path = os.path.join(wd, "traces.json")
+    with open(path, "w") as f:
+        json.dump(traces, f)
+    expected = sum(len(t["ops"]) + 1 for t in traces)
+    inv = ["Accepted", "NeverCharged", "SignKept"]
+    module = tlagen.mc_module("MCT", "InterestTrace", {})
+    cfg = tlagen.cfg({}, {"ExpectedStates": expected}, invariants=inv, postcondition="AllConsumed")
+    try:
+        res = tlc.run("MCT", module, cfg, workers=1, env={"TRACE_FILE": path}, tag=rep.prop + "-itracev", timeout=1800)
+    finally:
+        tlc.rm_workdir(wd)
+    try:
+        rep.add_model("interest (recorded traces)", res, inv, [])
+        if res.violated:
+            tr = tlaval.parse_trace(res.trace or "")
+            lastst = tr[-1][1] if tr else {}
+            tid, l = lastst.get("tid"), lastst.get("l")
+            verdict = list(lastst.get("verdict") or [])
+            t = traces[tid - 1] if tid else {"ops": []}
+            ops = t["ops"][: (l or 1) - 1]
+            clause = {"out": "outcome", "amt": "amount", "cash": "balance", "reject": "reject"}.get(verdict[0] if verdict else "", "amount")
+            rep.violation(clause, "trace/%s/%s" % ("/".join(verdict) or res.violated, ops[-1]["op"] if ops else "?"),
+                          "recorded execution of the real Broker rejected by InterestTrace.tla: trace %s line %s, clause(s) %s (growth "
+                          "factors %s / %s, deposit %s); logged calls %s" % (tid, (l or 1) - 1, verdict or res.violated, t.get("pos"), t.get("neg"),
+                                                                            t.get("dep"), ops), {"kind": "interest-trace", "trace": {**t, "ops": ops}})
+        else:
+            rep.traces += len(traces)
+            rep.evaluations += expected - len(traces)
+            rep.count("recorded_interest_traces_accepted", len(traces))
+            rep.sample({"recorded_interest_trace": traces[0]})
+    finally:
+        tlc.rm_workdir(res.workdir)
+
+
 def c06(tier, seed):
     from .props_broker import model as _unused  # noqa: F401
     from . import props_broker, broker_check
@@ -146,6 +228,8 @@ def c06(tier, seed):
                            markup=F(1, 16), steps=(1, 2), maxclk=4, bids=(8,), spreads=(0,), dqs=(-1, 1), deposit=F(40),
                            invariants=["SelfFinancing"], properties=[])
     broker_check.explore_and_replay(rep, m, props_broker.clauses_of("C06") | {"nlv"})
+    # code -> spec on the year lattice with dyadic rates (InterestTrace.tla): amounts and balances decided by TLC itself
+    validate_traces(rep, tier, seed)
     # the environment: the reference rate is published once, at the first timestep (reset seeds the rate book with 0 first)
     from . import envfull_check
     ms = [x for x in envfull_check.c07_models(tier) if x["name"] in ("yearly-interest", "yearly-rate-path")]
